@@ -408,5 +408,29 @@ def run(ctx, rep):
         rep.lost("total-order", why)
     else:
         rep.ob("total-order", "dynamic-symbols", ok, f"create_gnu_hash_layout: {why}", "libwild/src/elf.rs", 0)
+    # ---- the output file's length is always set -----------------------------------------------------------------------------
+    # In the update-in-place modes the output is opened without O_TRUNC; if its length were not set, a longer file left by an earlier
+    # link would keep its tail, so the bytes (and length) of the output would depend on what was at the path before.
+    rep.rule("output-sized", "every path of OutputBuffer::new sets the file's length (File::set_len directly or through new_mmapped) before a buffer is returned")
+    ob = F.body("libwild::file_writer::OutputBuffer::new")
+    if ob is None:
+        rep.lost("output-sized", "file_writer::OutputBuffer::new")
+    else:
+        oflow, ocfg = P.flow(ob), P.cfg(ob)
+        sizers = [bi for bi, t in oflow.calls() if (callee_key(t["f"]) or "").endswith(("File::set_len", "OutputBuffer::new_mmapped"))]
+        rets = [x for x in ocfg.reach if ob.blocks[x]["t"]["k"] == "return"]
+        uncovered = [r for r in rets if not any(ocfg.dominates(s_, r) for s_ in sizers)]
+        # a return is also fine when every path to it passes one of the sizers (two arms): check by removing the sizers
+        still = set()
+        for r in uncovered:
+            if r in ocfg.reachable_from(0, avoid=set(sizers)):
+                still.add(r)
+        rep.ob("output-sized", "all-paths", bool(sizers) and not still, f"{len(sizers)} sizing call(s); {len(still)} return(s) reachable without sizing the file", ob.file, ob.line)
+        nm = F.body("libwild::file_writer::OutputBuffer::new_mmapped")
+        if nm is not None:
+            nflow, ncfg = P.flow(nm), P.cfg(nm)
+            sl = [bi for bi, t in nflow.calls() if (callee_key(t["f"]) or "").endswith("File::set_len")]
+            rep.ob("output-sized", "new_mmapped-sets-len", bool(sl) and all(ncfg.dominates(s_, bi) for s_ in sl for bi, t in nflow.calls() if "map_mut" in (callee_key(t["f"]) or "")),
+                   "new_mmapped sets the length before mapping", nm.file, nm.line)
     rep.assume("byte equality across thread counts itself needs execution; decided here are the code-shape conditions without which it cannot hold")
     rep.assume("hashbrown with a fixed-state hasher iterates deterministically for identical insertion sequences; rows of kind set-only/fold do not depend on it")
